@@ -45,7 +45,11 @@ def run_program(exe, repo, name, text, timeout=180):
         out = p.stdout
         k = out.find('Running')
         if k < 0:
-            return ('rejected' if 'error' in (out + p.stderr).lower() else 'crashed'), (out + p.stderr).splitlines()[-12:]
+            al = (out + p.stderr).splitlines()
+            import re as _re
+            plain = [_re.sub(r'\x1b\[[0-9;]*m', '', ln) for ln in al]
+            errs = [ln for ln in plain if ln.startswith('error')][:20]
+            return ('rejected' if errs or 'error' in (out + p.stderr).lower() else 'crashed'), errs + plain[-12:]
         body = out[k:].split('\n', 1)[1] if '\n' in out[k:] else ''
         lines = [ln for ln in body.splitlines()]
         # the trailer `Process exited with ...`
@@ -65,7 +69,7 @@ def run_program(exe, repo, name, text, timeout=180):
         shutil.rmtree(d, ignore_errors=True)
 
 
-def run_cases(unit, prop, repo, scratch, tier, cases, function, what, bound):
+def run_cases(unit, prop, repo, scratch, tier, cases, function, what, bound, rejection_violates=None):
     t0 = time.time()
     r = dict(unit=unit.name, kind='bounded', status='ok', undecided=[], failures=[], per_fn=[], samples=[],
              obligations=0, discharged=0, assumption_texts=[], bounded=[], wall_s=0.0)
@@ -80,6 +84,19 @@ def run_cases(unit, prop, repo, scratch, tier, cases, function, what, bound):
     for name, text, expected in cases:
         n_cases += 1
         status, lines = run_program(exe, repo, name, text)
+        if status == 'rejected' and rejection_violates is not None and rejection_violates(lines):
+            # the property itself demands that this program is accepted (the unit says which
+            # diagnostics count): the rejection is the violation
+            r['status'] = 'fail'
+            r['wall_s'] = time.time() - t0
+            r['bounded'].append(dict(unit=unit.name, function=function, bound=bound, summary=dict(programs=n_cases), backend='the real compiler built from the tree'))
+            r['failures'].append(dict(unit=unit.name, function=function, kind='bounded-check', clause=what, site=None,
+                                      id='%s::%s::bounded-check' % (unit.name, function), primary=None, secondary=[],
+                                      message='bounded check failed', rendered='program %s is rejected: %s' % (name, ' | '.join(lines)[-600:]),
+                                      witness=dict(kind='concrete-input', input='program %s (rejected)' % name, program=text, output=lines,
+                                                   cmd='capy run %s.capy --mod-dir <tree>' % name,
+                                                   note='a program the property requires to be accepted is rejected by the compiler built from the tree')))
+            return r
         if status in ('rejected', 'timeout') or (status == 'crashed' and not lines):
             # the generated program is not accepted (or the compiler crashed): the stand-in
             # cannot decide with it -- never an alarm
